@@ -119,6 +119,9 @@ class Spec:
                    "between two syscalls are not enumerated", "residual kernel timing can make a saved case flaky "
                    "(oracles are invariants over all schedules, so this costs reproducibility, not soundness)"]
 
+    def accepts(self, case):
+        return "invs" in case
+
     def cases(self, tier):
         return 640 if tier == "quick" else 6400
 
@@ -130,3 +133,119 @@ class Spec:
 
 
 SPEC = Spec()
+
+
+def spec_for(case):
+    from . import c09race, c09sys
+    if "scenario" in case:
+        return c09sys
+    if "scn" in case:
+        return c09race
+    return SPEC
+
+
+def run_check(tier, seed):
+    """Random/PRNG schedules over generated scenarios (above) + the systematic tier: every schedule of small scenarios."""
+    import time
+    from .. import engine
+    from . import c09sys
+    t0 = time.time()
+    code, ev = engine.run_property("rv.props.c09", tier, seed)
+    problems, stats, samples = c09sys.explore(tier, seed)
+    cov = ev["coverage"]
+    cov["systematic"] = dict(stats, exhaustive=not any(v["truncated"] for v in stats["scenarios"].values()),
+                             rule="small scenarios (2-3 gated leaves quick / 2-4 thorough; requested directly or through "
+                                  "one nested redo-ifchange; own -jN or harness jobserver with returnable tokens; log "
+                                  "capture on/off): at every quiescent point EVERY non-empty subset of {gated script k "
+                                  "exits, a token arrives} is delivered inside one wake-up (SIGSTOP/SIGCONT) and the "
+                                  "enumeration recurses until the invocation ends; stateless DFS by re-running prefixes. "
+                                  "Non-trivial = a schedule containing a subset of size >= 2.",
+                             samples=samples)
+    cov["evaluations"] += stats["schedules"]
+    cov["distinct_nontrivial"] += stats["with_coincidence"]
+    cov["inconclusive_cases"] += stats["inconclusive"]
+    known = engine.load_known()
+    seen = set()
+    for res in problems:
+        p = res["problem"]
+        prop = "C09"
+        if "database is locked" in p["sig"]["symptom"]:
+            prop = "C16"
+        elif "on exit: expected" in p["sig"]["symptom"]:
+            prop = "C08"
+        if prop != "C09":
+            cov["other_property_symptoms_seen"][prop + "/" + p["clause"]] = \
+                cov["other_property_symptoms_seen"].get(prop + "/" + p["clause"], 0) + 1
+            continue
+        k = engine.match_known("C09", p["sig"], known)
+        if k is not None:
+            cov["known_finding_hits"][k["id"]] = cov["known_finding_hits"].get(k["id"], 0) + 1
+            print("KNOWN-FINDING: property=C09 %s (%s)" % (k["what"], k["id"]))
+            continue
+        key = (res["scenario"], p["clause"], p["sig"]["symptom"])
+        if key in seen:
+            continue
+        seen.add(key)
+        scn = [x for x in c09sys.scenarios(tier, seed) if x["name"] == res["scenario"]][0]
+        v = {"property": "C09", "clause": "systematic/" + p["clause"], "detail": p["detail"], "sig": p["sig"], "step": 0}
+        path = engine.write_replay("C09", {"scenario": scn, "prefix": res["prefix"]}, v)
+        print("VIOLATION property=C09 replay=%s" % path)
+        print("  clause=%s sig=%s schedule=%s" % (v["clause"], p["sig"], res["fired"]))
+        ev["violations"] += 1
+        code = 1
+    # regression replays of the two extra tiers
+    import json as _json
+    import os as _os
+    from . import c09race
+    rdir = _os.path.join(engine.VERIF, "replays", "C09")
+    for fn in sorted(_os.listdir(rdir)) if _os.path.isdir(rdir) else []:
+        if not (fn.startswith("reg-") or fn.startswith("known-")) or not fn.endswith(".json"):
+            continue
+        with open(_os.path.join(rdir, fn)) as f:
+            rp = _json.load(f)
+        mod = spec_for(rp["case"])
+        if mod is SPEC:
+            continue
+        try:
+            o = mod.run_case(rp["case"], tier)
+        except runner.Inconclusive:
+            continue
+        cov["regression_replays"] += 1
+        cov["evaluations"] += 1
+        if o.violation and o.violation["property"] == "C09":
+            k = engine.match_known("C09", o.violation["sig"], known)
+            if k is not None:
+                print("KNOWN-FINDING: property=C09 %s (%s)" % (k["what"], k["id"]))
+            else:
+                print("VIOLATION property=C09 replay=%s" % _os.path.join(rdir, fn))
+                print("  clause=%s sig=%s" % (o.violation["clause"], o.violation["sig"]))
+                ev["violations"] += 1
+                code = 1
+    # token-race tier (fault enumeration over every read of the jobserver pipe)
+    rproblems, rstats, rsamples = c09race.explore(tier, seed)
+    cov["token_race"] = dict(rstats, exhaustive=True, samples=rsamples,
+                             rule="small ungated builds under a harness jobserver (1-2 tokens): every read() of the token "
+                                  "pipe by any redo process loses the race in turn (shim takes the byte first and hands it "
+                                  "to the harness, which keeps it or returns it 0.4 s later); the build must end with exit "
+                                  "0 and from-scratch contents. Non-trivial = the byte was really taken.")
+    cov["evaluations"] += rstats["runs"]
+    cov["distinct_nontrivial"] += rstats["race_lost"]
+    cov["inconclusive_cases"] += rstats["inconclusive"]
+    seen = set()
+    for res in rproblems:
+        p = res["problem"]
+        if p == "inconclusive":
+            continue
+        key = (res["name"], p["clause"])
+        if key in seen:
+            continue
+        seen.add(key)
+        scn = [x for x in c09race.scenarios(tier, seed) if x["name"] == res["name"]][0]
+        v = {"property": "C09", "clause": "token-race/" + p["clause"], "detail": p["detail"], "sig": p["sig"], "step": 0}
+        path = engine.write_replay("C09", {"scn": scn, "k": res["k"], "ret": res["ret"]}, v)
+        print("VIOLATION property=C09 replay=%s" % path)
+        print("  clause=%s sig=%s" % (v["clause"], p["sig"]))
+        ev["violations"] += 1
+        code = 1
+    ev["wall_s"] = round(time.time() - t0, 2)
+    return code, ev
